@@ -74,6 +74,8 @@ def generate(seed, tier="quick", mode=None, **kw):
         for k in plan["knobs"]:
             k["set_key"] = plan["knobs"][0]["set_key"]
     if mode == "undo":
+        # a few undo runs execute in a real child interpreter under another PYTHONHASHSEED (the forward run stays in-process)
+        plan["child_undo_hashseed"] = r.randint(1, 4_000_000_000) if r.random() < 0.05 else None
         plan["crash_at"] = r.randint(5, 40 + 25 * nfiles) if r.random() < 0.35 else None
         plan["entry2"] = r.choice(["cli", "cli", "files", "file", "io"])
         if plan["crash_at"] and plan["entry"] == "io":
@@ -363,7 +365,15 @@ def _check_undo(plan):
     world = {"disk": _disk(plan), "procs": [
         {"knobs": plan["knobs"][0], "faults": f1, "steps": [_step(plan, plan["entry"], "in", "anon")]},
         {"knobs": plan["knobs"][1], "faults": [], "steps": [_step(plan, plan["entry2"], "anon", "undone", opts=o2)]}]}
-    H = W.run_world(world)
+    if plan.get("child_undo_hashseed"):
+        H1 = W.run_world({"disk": world["disk"], "procs": world["procs"][:1]})
+        p2 = dict(world["procs"][1], knobs=dict(world["procs"][1]["knobs"], real_set_order=True))
+        H2 = core.run_child_world({"disk": H1["final"], "procs": [p2]}, plan["child_undo_hashseed"])
+        H2["procs"][0]["nsys"] = len(H2["procs"][0]["trace"])
+        H = {"procs": [H1["procs"][0], H2["procs"][0]], "final": H2["final"]}
+        probes["undo_in_child_interpreter"] = 1
+    else:
+        H = W.run_world(world)
     h1, h2 = H["procs"]
     steps = h1["nsys"] + h2["nsys"]
     digest_items = [W.public_hist(h1), W.public_hist(h2)]
